@@ -627,7 +627,7 @@ func runFrame(fr *frame) {
 		}
 		p := recover()
 		switch p.(type) {
-		case pathAbort, infraError, killGoroutine:
+		case pathAbort, infraError, killGoroutine, deadlockErr:
 			panic(p) // engine control flow: never visible to the target program
 		}
 		if re, ok := p.(runtime.Error); ok {
@@ -730,7 +730,7 @@ func doRecover(caller *frame) value {
 		case string:
 			// The interpreter explicitly called panic().
 			return iface{caller.i.runtimeErrorString, p}
-		case pathAbort, infraError, killGoroutine:
+		case pathAbort, infraError, killGoroutine, deadlockErr:
 			panic(p)
 		default:
 			panic(fmt.Sprintf("unexpected panic type %T in target call to recover()", p))
